@@ -15,7 +15,7 @@ import (
 	"verif/internal/model"
 )
 
-const rule = "cases: (entry point, type argument, bytes) over all 43 parser entry points of DESIGN Appendix A; bytes are model encodings of generated values (every supported key-type pair, NULL/KEY certificates with excess payload, 0..16 leases/keys/entries, offline blocks, odd mappings), 1-2 structure-aware mutations of those (length/count/type fields, truncation, insertion, deletion, appended data) or arbitrary bytes. Oracle: round trip - if the parser accepts, serialise(value) must equal input minus remainder, also on the second call and (a quarter of the cases) after every argument-free exported method of the value has been called once (for ReadLeaseSet, which returns no remainder: the extent the independent model decodes, else a prefix of the input). Non-trivial: accepted and (input mutated/suffixed/arbitrary, or structure with a variable-length part); distinct by (entry, consumed bytes)."
+const rule = "cases: (entry point, type argument, bytes) over all 43 parser entry points of DESIGN Appendix A; bytes are model encodings of generated values (every supported key-type pair, NULL/KEY certificates with excess payload, 0..16 leases/keys/entries, offline blocks, odd mappings), 1-2 structure-aware mutations of those (length/count/type fields, truncation, insertion, deletion, appended data) or arbitrary bytes. Oracle: round trip - if the parser accepts, serialise(value) must equal input minus remainder, also on the second call - after other well-formed data went through the same parser - and (a quarter of the cases) after every argument-free exported method of the value has been called once (for ReadLeaseSet, which returns no remainder: the extent the independent model decodes, else a prefix of the input). Non-trivial: accepted and (input mutated/suffixed/arbitrary, or structure with a variable-length part); distinct by (entry, consumed bytes)."
 
 func TestMain(m *testing.M) { ev.Main(m, "C01", rule) }
 
@@ -103,6 +103,11 @@ func again(e *lib.Entry, c Case, res lib.Result, consumed []byte, r *ev.Rec) err
 		r.Class("second-serialisation:not-applicable")
 		return nil
 	}
+	// other data goes through the same parser in between (a parser that hands out
+	// pooled or shared storage is exposed by the next parse)
+	for _, fi := range fixedFor(e.Name) {
+		e.Parse(fi.Bytes(), fi.Typ)
+	}
 	b2, err, _ := lib.Serialise(res.Value)
 	if err != nil || !bytes.Equal(b2, consumed) {
 		return fmt.Errorf("%s (typ %d): the second serialisation of the same value differs from the consumed bytes (%d vs %d bytes, err %v, first difference at %d)", e.Name, c.Typ, len(b2), len(consumed), err, firstDiff(b2, consumed))
@@ -119,6 +124,20 @@ func again(e *lib.Entry, c Case, res lib.Result, consumed []byte, r *ev.Rec) err
 	}
 	r.Class("serialisation-after-accessors")
 	return nil
+}
+
+var fixedCache = map[string][]gen.Input{}
+
+func fixedFor(entry string) []gen.Input {
+	if f, ok := fixedCache[entry]; ok {
+		return f
+	}
+	f := gen.FixedInputs(entry)
+	if len(f) > 2 {
+		f = f[:2]
+	}
+	fixedCache[entry] = f
+	return f
 }
 
 var weighted = lib.WeightedNames()
